@@ -280,6 +280,7 @@ def _history_inputs():
         ("os.system by INST (protocol 0: the import comes from INST alone)", b"(S'id'\nios\nsystem\n."),
         ("NEWOBJ_EX with an empty keyword dict (protocol 4)", b"\x80\x04ccollections\nOrderedDict\n)}\x92."),
         ("OBJ with two arguments (protocol 0)", b"(cdecimal\nDecimal\nS'1.5'\nK\x02o."),
+        ("a call whose argument is a 100-character string", b"cos\nsystem\n(S'" + b"x" * 100 + b"'\ntR."),
     ]
 
 
